@@ -93,7 +93,14 @@ inductive Kind
   | date     -- `new Date(0)`
 deriving DecidableEq, Repr
 
+/-- a member of an object literal: `n: v`, `get n(){…}`, `set n(x){…}` -/
+inductive LKind | value | get | set
+deriving DecidableEq, Repr
+
+abbrev LMember := LKind × Name × Val
+
 inductive Op
+  | literal (ms : List LMember)
   | native (k : Kind)
   | put (strict : Bool) (a : Addr) (n : Name) (v : Val)
   | del (strict : Bool) (a : Addr) (n : Name)
@@ -105,7 +112,7 @@ inductive Op
   | preventExt (a : Addr)
 deriving DecidableEq, Repr
 
-inductive Outcome | ok | typeError | bool (b : Bool) | bad
+inductive Outcome | ok | typeError | bool (b : Bool) | bad | syntaxError
 deriving DecidableEq, Repr
 
 abbrev Call := Fn × Addr × Val
@@ -505,7 +512,20 @@ def nativeObj (k : Kind) (a : Addr) : MObj :=
        (10, ⟨.val 1, ⟨.on, .off, .off⟩⟩), (11, ⟨.val 997, ⟨.off, .off, .off⟩⟩)]⟩
   | .date => ⟨none, true, []⟩
 
+/-- cmpl_evaluate_expression.go cmplEvaluateNodeObjectLiteral: every member goes through
+    defineProperty / defineOwnProperty (throw = false) on the fresh object, in source order;
+    a literal getter / setter is a fresh function (code 900), mode 0o211 -/
+def literalDesc : LMember → MProp
+  | (.value, _, v) => ⟨.val v, ⟨.on, .on, .on⟩⟩
+  | (.get, _, _) => ⟨.gs (.fn 900) .nil, ⟨.unset, .on, .on⟩⟩
+  | (.set, _, _) => ⟨.gs .nil (.fn 900), ⟨.unset, .on, .on⟩⟩
+
+def literalFold (o : MObj) : List LMember → MObj
+  | [] => o
+  | m :: t => literalFold ((defineOwn o m.2.1 (literalDesc m)).getD o) t
+
 def step (h : MHeap) : Op → StepRes
+  | .literal ms => (h ++ [literalFold ⟨none, true, []⟩ ms], .ok, [])
   | .native k => (h ++ [nativeObj k h.length], .ok, [])
   -- cmpl_evaluate_expression.go:174,254: member expressions always build the property reference
   -- with strict = false ("use strict" parses but does nothing, otto.go:131)
